@@ -134,7 +134,7 @@ def run_history(darsia, rng, tid, kind, dim, hist, h, payload, as_image, use_vox
 
 
 def _exp10(rel):
-    return int(max(-17, min(3, math.ceil(math.log10(max(rel, 1e-17))))))
+    return 3 if not math.isfinite(rel) else int(max(-17, min(3, math.ceil(math.log10(max(rel, 1e-17))))))
 
 
 def normalize_event(darsia, rng, tid, dim):
@@ -186,7 +186,7 @@ def normalize_event(darsia, rng, tid, dim):
     ratio = np.broadcast_to(np.asarray(ratio, dtype=float), np.zeros(tail).shape).ravel() if tail else np.atleast_1d(np.asarray(ratio, dtype=float))
 
     def ex10(rel):
-        return int(max(-17, min(3, math.ceil(math.log10(max(rel, 1e-17))))))
+        return 3 if not math.isfinite(rel) else int(max(-17, min(3, math.ceil(math.log10(max(rel, 1e-17))))))
 
     for k in range(len(e["ia"])):
         e["relexp"].append(ex10(abs(i_out[k] - e["iref"][k]) / abs(e["iref"][k])))
